@@ -34,7 +34,7 @@ UTypes ==
             bad   |-> FD(S, <<>>),
             echo  |-> FD(S, <<AD("s", S), AD("b", B), AD("i", I)>>),
             need  |-> FD(S, <<AD("x", NonNull(S))>>),
-            obj   |-> FD(S, <<AD("in", Named("In")), AD("l", ListOf(S))>>) ] ],
+            obj   |-> FD(S, <<AD("in", Named("In")), AD("l", ListOf(S)), AD("ins", ListOf(Named("In"))), AD("ll", ListOf(ListOf(S)))>>) ] ],
     In |->
       [ kind |-> "INPUT_OBJECT", ifaces |-> <<>>, members |-> <<>>, fields |-> [x \in {} |-> 0],
         infields |-> <<AD("a", S), ADD("n", I, IntV(7)), AD("l", ListOf(S))>> ],
@@ -70,7 +70,9 @@ UTypes ==
       [ kind |-> "OBJECT", ifaces |-> <<>>, members |-> <<>>,
         fields |-> [ only |-> FD(S, <<>>) ] ],
     Any |->
-      [ kind |-> "UNION", ifaces |-> <<>>, members |-> <<"A", "B">>, fields |-> [x \in {} |-> 0] ] ]
+      [ kind |-> "UNION", ifaces |-> <<>>, members |-> <<"A", "B">>, fields |-> [x \in {} |-> 0] ],
+    Solo |->       \* a union that holds only one of the implementors of Named
+      [ kind |-> "UNION", ifaces |-> <<>>, members |-> <<"A">>, fields |-> [x \in {} |-> 0] ] ]
 
 UNodeType == [ q |-> "Query", m |-> "Mutation", a1 |-> "A", a2 |-> "A", b1 |-> "B" ]
 
